@@ -1,5 +1,10 @@
 import PdfModel.Lemmas.Xref
 import PdfModel.Lemmas.XrefStream
+import PdfModel.Lemmas.XrefTable
+import PdfModel.Lemmas.XrefTableWriter
+import PdfModel.Lemmas.XrefWalk
+import PdfModel.Lemmas.XrefFile
+import PdfModel.Lemmas.XrefTableTotal
 
 /-!
 # C02 — the newest cross-reference entry for an object always wins
@@ -151,19 +156,22 @@ theorem split_irrelevant (t : Table) (first : Nat) (a b : List XRef) :
 /-! ## Cross-reference streams: the byte-level section reader returns what a conforming writer wrote -/
 
 /-- **C02, "each section in either xref format" (stream format, one subsection).** Rows written
-    big-endian in any widths `≤ 8` that fit the fields (type field omitted only when every entry is of
-    type 1) are read back exactly, in strict and in tolerant mode, and the cursor ends after the rows. -/
+    big-endian in any widths `≤ 8`, not all zero, that fit the fields (type field omitted only when every
+    entry is of type 1) are read back exactly, in strict and in tolerant mode, and the cursor ends after the rows. -/
 theorem stream_section_reads_back (first : Nat) (es : List XRef) (w0 w1 w2 : Nat) (rest : List UInt8)
     (allowErr : Bool) (h0 : w0 ≤ 8) (h1 : w1 ≤ 8) (h2 : w2 ≤ 8)
-    (hf : ∀ e ∈ es, Fits w0 w1 w2 e) (hsz : es.length * (w0 + w1 + w2) < U64) :
+    (hf : ∀ e ∈ es, Fits w0 w1 w2 e) (hpos : 0 < w0 + w1 + w2) :
     parseSection first es.length [w0, w1, w2] (encodeRows w0 w1 w2 es ++ rest) allowErr
       = .ok (⟨first, es⟩, rest) := by
   unfold parseSection
   have hrow : ¬ (w0 + w1 + w2 ≥ U64) := by unfold U64; omega
-  have hprod : ¬ (es.length * (w0 + w1 + w2) ≥ U64) := by omega
-  have hlen : ¬ (es.length * (w0 + w1 + w2) > (encodeRows w0 w1 w2 es ++ rest).length) := by
-    rw [List.length_append, encodeRows_length _ _ _ _ hf]; omega
-  simp only [hrow, hprod, hlen, if_false]
+  have hz : ¬ (w0 + w1 + w2 = 0) := by omega
+  have hlen : ¬ (es.length > (encodeRows w0 w1 w2 es ++ rest).length / (w0 + w1 + w2)) := by
+    rw [List.length_append, encodeRows_length _ _ _ _ hf]
+    have : es.length ≤ (es.length * (w0 + w1 + w2) + rest.length) / (w0 + w1 + w2) := by
+      rw [Nat.le_div_iff_mul_le hpos]; omega
+    omega
+  simp only [hrow, hz, hlen, if_false]
   rw [readEntries_encode w0 w1 w2 es rest [] h0 h1 h2 hf]
   simp
 
@@ -172,7 +180,7 @@ theorem stream_section_reads_back (first : Nat) (es : List XRef) (w0 w1 w2 : Nat
 theorem stream_sections_read_back (subs : List Sub) (w0 w1 w2 : Nat) (allowErr : Bool)
     (h0 : w0 ≤ 8) (h1 : w1 ≤ 8) (h2 : w2 ≤ 8)
     (hf : ∀ s ∈ subs, ∀ e ∈ s.entries, Fits w0 w1 w2 e)
-    (hsz : ∀ s ∈ subs, s.entries.length * (w0 + w1 + w2) < U64) (acc : List Sub) :
+    (hpos : 0 < w0 + w1 + w2) (acc : List Sub) :
     parseSections [w0, w1, w2] allowErr (subs.map fun s => (s.first, s.entries.length))
         (subs.flatMap fun s => encodeRows w0 w1 w2 s.entries) acc
       = .ok (acc.reverse ++ subs) := by
@@ -181,9 +189,9 @@ theorem stream_sections_read_back (subs : List Sub) (w0 w1 w2 : Nat) (allowErr :
   | cons s ss ih =>
     simp only [List.map_cons, List.flatMap_cons, parseSections]
     rw [stream_section_reads_back s.first s.entries w0 w1 w2 _ allowErr h0 h1 h2
-          (hf s (by simp)) (hsz s (by simp))]
+          (hf s (by simp)) hpos]
     simp only
-    rw [ih (fun x hx => hf x (by simp [hx])) (fun x hx => hsz x (by simp [hx]))]
+    rw [ih (fun x hx => hf x (by simp [hx]))]
     simp
 
 /-- a concrete section with all three entry kinds satisfies the hypotheses (non-vacuity) -/
@@ -204,8 +212,7 @@ theorem stream_history_newest_wins (size : Nat) (h : List (List Sub)) (id : Nat)
     (widths : List Sub → Nat × Nat × Nat)
     (hw : ∀ sec ∈ h, (widths sec).1 ≤ 8 ∧ (widths sec).2.1 ≤ 8 ∧ (widths sec).2.2 ≤ 8)
     (hf : ∀ sec ∈ h, ∀ s ∈ sec, ∀ e ∈ s.entries, Fits (widths sec).1 (widths sec).2.1 (widths sec).2.2 e)
-    (hsz : ∀ sec ∈ h, ∀ s ∈ sec,
-      s.entries.length * ((widths sec).1 + (widths sec).2.1 + (widths sec).2.2) < U64) :
+    (hpos : ∀ sec ∈ h, 0 < (widths sec).1 + (widths sec).2.1 + (widths sec).2.2) :
     (∀ sec ∈ h,
       parseSections [(widths sec).1, (widths sec).2.1, (widths sec).2.2] allowErr
         (sec.map fun s => (s.first, s.entries.length))
@@ -215,8 +222,427 @@ theorem stream_history_newest_wins (size : Nat) (h : List (List Sub)) (id : Nat)
   refine ⟨?_, merge_newest_wins size h id hid wf⟩
   intro sec hsec
   obtain ⟨a, b, c⟩ := hw sec hsec
-  have := stream_sections_read_back sec _ _ _ allowErr a b c (hf sec hsec) (hsz sec hsec) []
+  have := stream_sections_read_back sec _ _ _ allowErr a b c (hf sec hsec) (hpos sec hsec) []
   simpa using this
+
+
+/-! ## Classic tables: the byte-level section reader returns what a conforming writer wrote
+
+`Model/XrefTable` mirrors `parse_xref_table_and_trailer` / `read_xref_and_trailer_at` on the lexer model;
+`Spec/XrefTable` says, independently of the reader, which texts a conforming writer may emit
+(`TableText`, `SectionText`: every token followed by a non-empty run of white-space / comments, which
+covers the 20-byte entries with their three line ends, any white-space / end-of-line around the header
+numbers, any splitting into subsections) and contains an executable writer driven by a tape of layout
+choices. -/
+
+section ClassicTable
+open PdfLex XrefTable XrefTableSpec
+open PdfSyntax (Gap Bnd Spells)
+
+/-- **C02, "each section in either xref format" (classic format), reader ∘ writer = sections.**
+    For every list of subsections and every text `tbl` the relation permits for it (any legal layout),
+    placed anywhere in a buffer behind any gap `g` (the separator after `xref`) and followed by `trailer`:
+    the subsection loop returns exactly the subsections — first numbers, entry kinds, offsets, generations,
+    splitting — and the lexer rests right behind the keyword `trailer`.  No error, no panic, fuel suffices. -/
+theorem table_section_reads_back {buf : Buf} (subs : List Sub) (g tbl rest : List UInt8) (hg : Gap g)
+    (htt : TableText subs tbl) (hb : Bnd rest) (p : Nat)
+    (h : Suffix buf p (g ++ tbl ++ XrefTable.kwTrailer ++ rest)) :
+    parseTable buf (XrefTable.defaultFuel buf) p = .ok (subs, p + (g ++ tbl ++ XrefTable.kwTrailer).length) := by
+  apply parseTable_spec subs g tbl rest hg htt hb _ p _ h
+  have h1 := tableText_length subs tbl htt
+  have h2 := h.size_eq
+  simp only [XrefTable.defaultFuel]
+  simp at h2; omega
+
+/-- **The fixed 20-byte entry format is covered**: `nnnnnnnnnn ggggg n` / `… f` followed by SP CR, SP LF or
+    CR LF is a text the relation permits for that entry (and it is 20 bytes long). -/
+theorem strict_entries_covered (e : XRef) (t : List UInt8) (h : StrictEntry e t) : EntryText e t ∧ t.length = 20 :=
+  strict_entry_conformant e t h
+
+/-- **The executable writer is conforming** (so everything the harness generates from it lies in the domain
+    of the theorems): whatever the layout tape, for subsections that a classic table can hold. -/
+theorem table_writer_conformant (subs : List Sub) (h : ∀ s ∈ subs, SubOK s) (tape : List Nat) :
+    TableText subs (writeTable subs tape).1 :=
+  writeTable_conformant subs h tape
+
+/-- reader ∘ executable writer = sections, for every layout tape -/
+theorem table_writer_reads_back (subs : List Sub) (h : ∀ s ∈ subs, SubOK s) (tape : List Nat) (g rest : List UInt8)
+    (hg : Gap g) (hb : Bnd rest) :
+    parseTable (g ++ (writeTable subs tape).1 ++ XrefTable.kwTrailer ++ rest).toArray
+        ((g ++ (writeTable subs tape).1 ++ XrefTable.kwTrailer ++ rest).length + 1) 0
+      = .ok (subs, (g ++ (writeTable subs tape).1 ++ XrefTable.kwTrailer).length) := by
+  have := table_section_reads_back (buf := (g ++ (writeTable subs tape).1 ++ XrefTable.kwTrailer ++ rest).toArray)
+    subs g _ rest hg (writeTable_conformant subs h tape) hb 0 (suffix_zero _)
+  simpa [XrefTable.defaultFuel] using this
+
+/-- **The subsection loop ends on every input** (the Rust `while` loop carries no bound; the model's does):
+    whatever the bytes, from any lexer position, `buf.size + 1` rounds suffice — every round consumes at
+    least the two header numbers, and every lexeme is at least one byte of progress
+    (`PdfLex.nextWord_progress`; the comment loop inside `next_word` never exhausts its own fuel either). -/
+theorem table_reader_total (buf : Buf) (pos : Nat) (hp : pos ≤ buf.size) :
+    parseTable buf (XrefTable.defaultFuel buf) pos ≠ .oof :=
+  parseTable_ne_oof buf pos hp
+
+variable {R : Type}
+
+/-- **C02, whole classic section through `read_xref_and_trailer_at`.** A section `txt` (optional gap,
+    `xref`, separator, table, `trailer`, optional gap, a conformant spelling of the trailer dictionary
+    `d`) anywhere in a buffer: whatever the cross-reference-stream branch `stm` would do, the reader
+    returns the subsections and the trailer dictionary.  Hypotheses as in C03 for the dictionary (distinct
+    UTF-8 keys, nesting within `MAX_DEPTH`, what follows does not continue the dictionary: `Ahead`). -/
+theorem table_section_with_trailer_reads_back (env : Env R) (hd : env.decrypt = none)
+    (stm : Buf → Nat → Out (List Sub × Dict R)) (subs : List Sub) (d : Dict R) (dtxt txt rest : List UInt8)
+    (hst : SectionText subs dtxt txt) (hsp : Spells env.parseReal (.dict d) dtxt)
+    (hwf : PdfSyntax.WF (Prim.dict d)) (hdepth : PdfSyntax.vdepth (Prim.dict d) ≤ maxDepth)
+    (hsz : (txt ++ rest).length ≤ 2147483647) (hah : Ahead (txt ++ rest).toArray txt.length) :
+    xrefAt env stm (txt ++ rest) = .ok (subs, d) :=
+  xrefAt_table env hd stm subs d dtxt txt rest hst hsp hwf hdepth hsz hah
+
+/-- **C02, file → table, classic format.** A history whose sections are all written as classic tables
+    (`secs`: every section with its text, oldest first), each in any legal layout, is read back section by
+    section and merged to the table that holds the newest mention of every well-formed object number: the
+    byte-level reader composed with `merge_newest_wins`. -/
+theorem table_history_newest_wins (size : Nat) (secs : List (List Sub × List UInt8)) (id : Nat) (hid : id < size)
+    (wf : WF (secs.map (·.1)) id) (hw : ∀ s ∈ secs, TableText s.1 s.2) :
+    (∀ s ∈ secs, ∀ {buf : Buf} (g rest : List UInt8) (p : Nat), Gap g → Bnd rest →
+        Suffix buf p (g ++ s.2 ++ XrefTable.kwTrailer ++ rest) →
+        parseTable buf (XrefTable.defaultFuel buf) p = .ok (s.1, p + (g ++ s.2 ++ XrefTable.kwTrailer).length)) ∧
+    ∃ t, mergeAll (newTable size) (secs.map (·.1)).reverse = .ok t ∧
+      t[id]? = some ((latest (secs.map (·.1)) id).getD .invalid) := by
+  refine ⟨?_, merge_newest_wins size _ id hid wf⟩
+  intro s hs buf g rest p hg hb hsuf
+  exact table_section_reads_back _ g _ rest hg (hw s hs) hb p hsuf
+
+/-- how one section of a history is stored in the file -/
+inductive Stored where
+  /-- classic table with this text between `xref` and `trailer` -/
+  | table (tbl : List UInt8)
+  /-- cross-reference stream with these field widths -/
+  | stream (w0 w1 w2 : Nat)
+
+/-- the section is stored by a conforming writer of that format -/
+def StoredOK (sec : List Sub) : Stored → Prop
+  | .table tbl => TableText sec tbl
+  | .stream w0 w1 w2 => w0 ≤ 8 ∧ w1 ≤ 8 ∧ w2 ≤ 8 ∧ (∀ s ∈ sec, ∀ e ∈ s.entries, Fits w0 w1 w2 e) ∧
+      0 < w0 + w1 + w2
+
+/-- the byte-level reader of that format returns the section -/
+def ReadsBack (allowErr : Bool) (sec : List Sub) : Stored → Prop
+  | .table tbl => ∀ {buf : Buf} (g rest : List UInt8) (p : Nat), Gap g → Bnd rest →
+      Suffix buf p (g ++ tbl ++ XrefTable.kwTrailer ++ rest) →
+      parseTable buf (XrefTable.defaultFuel buf) p = .ok (sec, p + (g ++ tbl ++ XrefTable.kwTrailer).length)
+  | .stream w0 w1 w2 =>
+      parseSections [w0, w1, w2] allowErr (sec.map fun s => (s.first, s.entries.length))
+        (sec.flatMap fun s => encodeRows w0 w1 w2 s.entries) [] = .ok sec
+
+/-- **C02, mixed formats: "each update may use a classic table or a cross-reference stream".** Every section
+    of the history (`secs`: section and how it is stored, oldest first) independently in either format (any
+    layout / any widths, any subsection splitting):
+    each is read back by the reader of its format, and the merge of what was read holds the newest mention
+    of every well-formed object number. -/
+theorem file_history_newest_wins (size : Nat) (secs : List (List Sub × Stored)) (id : Nat) (hid : id < size)
+    (wf : WF (secs.map (·.1)) id) (allowErr : Bool) (hw : ∀ s ∈ secs, StoredOK s.1 s.2) :
+    (∀ s ∈ secs, ReadsBack allowErr s.1 s.2) ∧
+    ∃ t, mergeAll (newTable size) (secs.map (·.1)).reverse = .ok t ∧
+      t[id]? = some ((latest (secs.map (·.1)) id).getD .invalid) := by
+  refine ⟨?_, merge_newest_wins size _ id hid wf⟩
+  intro s hs
+  have hok := hw s hs
+  obtain ⟨sec, f⟩ := s
+  cases f with
+  | table tbl =>
+    intro buf g rest p hg hb hsuf
+    exact table_section_reads_back _ g _ rest hg hok hb p hsuf
+  | stream w0 w1 w2 =>
+    obtain ⟨a, b, c, hf, hpos⟩ := hok
+    have := stream_sections_read_back sec w0 w1 w2 allowErr a b c hf hpos []
+    simpa [ReadsBack] using this
+
+end ClassicTable
+
+/-! ## The `/Prev` walk
+
+`Backend::read_xref_table_and_trailer` is `Offsets.loadTable` (Model/Offsets) over an abstract "section at
+offset" function.  A well-formed file is a chain `newest :: older` of sections (`Offsets.Rev`: offset,
+subsections, trailer) such that the reader returns each section at its offset (`ReadsAt`), every trailer's
+`/Prev` is the offset of the next older section and the oldest has none (`Linked`), and the older offsets
+are pairwise distinct. -/
+
+section Walk
+open Offsets OffLex
+
+variable {V T : Type}
+
+/-- **The walk visits exactly the chain, newest → oldest.** The result is the merge, into a fresh table of
+    `/Size + 1` slots (`/Size` of the *newest* trailer), of the newest section and then every older one in
+    chain order — no section skipped, none merged twice, nothing else read — paired with the newest trailer;
+    errors of the merge are passed on unchanged. `fuel` need only cover the number of older sections. -/
+theorem walk_visits_chain (P : Parsers V T) (buf : Bytes) (start fuel : Nat) (newest : Rev T) (older : List (Rev T))
+    (size : Nat) (hx : locateXref buf = .ok newest.off) (hin : start + newest.off < buf.length)
+    (hfit : start + newest.off ≤ usizeMax)
+    (hnew : P.xrefAt (buf.drop (start + newest.off)) = .ok (newest.subs, newest.trailer))
+    (hsize : P.sizeOf newest.trailer = .ok size) (hmax : size ≤ maxId)
+    (hread : ∀ r ∈ older, ReadsAt P buf start r) (hlink : Linked P (newest :: older))
+    (hnd : (older.map (·.off)).Nodup) (hfuel : older.length ≤ fuel) :
+    loadTable P fuel buf start
+      = withTrailer newest.trailer (mergeAll (newTable size) ((newest :: older).map (·.subs))) :=
+  loadTable_chain P buf start fuel newest older size hx hin hfit hnew hsize hmax hread hlink hnd hfuel
+
+/-- **C02, "the document trailer is that of the newest section"**, and `/Size` of the newest trailer sizes
+    the table: whenever the walk over a well-formed chain succeeds, the trailer it returns is the newest
+    one and the table has `/Size + 1` slots. -/
+theorem trailer_is_newest (P : Parsers V T) (buf : Bytes) (start fuel : Nat) (newest : Rev T) (older : List (Rev T))
+    (size : Nat) (hx : locateXref buf = .ok newest.off) (hin : start + newest.off < buf.length)
+    (hfit : start + newest.off ≤ usizeMax)
+    (hnew : P.xrefAt (buf.drop (start + newest.off)) = .ok (newest.subs, newest.trailer))
+    (hsize : P.sizeOf newest.trailer = .ok size) (hmax : size ≤ maxId)
+    (hread : ∀ r ∈ older, ReadsAt P buf start r) (hlink : Linked P (newest :: older))
+    (hnd : (older.map (·.off)).Nodup) (hfuel : older.length ≤ fuel)
+    (t : Table) (tr : T) (hok : loadTable P fuel buf start = .ok (t, tr)) :
+    tr = newest.trailer ∧ t.length = size + 1 ∧
+      mergeAll (newTable size) ((newest :: older).map (·.subs)) = .ok t := by
+  rw [walk_visits_chain P buf start fuel newest older size hx hin hfit hnew hsize hmax hread hlink hnd hfuel] at hok
+  cases hm : mergeAll (newTable size) ((newest :: older).map (·.subs)) with
+  | ok t' =>
+    rw [hm] at hok
+    simp only [withTrailer, Out.ok.injEq, Prod.mk.injEq] at hok
+    obtain ⟨rfl, rfl⟩ := hok
+    exact ⟨rfl, by rw [mergeAll_length _ hm, newTable_length], rfl⟩
+  | err => rw [hm] at hok; simp [withTrailer] at hok
+  | panic => rw [hm] at hok; simp [withTrailer] at hok
+  | oof => rw [hm] at hok; simp [withTrailer] at hok
+
+/-- the history (oldest first) that a chain (newest first) stands for -/
+def historyOf (chain : List (Rev T)) : List (List Sub) := (chain.map (·.subs)).reverse
+
+/-- **C02 through the walk.** On a well-formed chain the walk succeeds, returns the newest trailer, and the
+    table holds for every well-formed object number below the newest `/Size` exactly its newest mention
+    (or `Invalid` when no section mentions it). -/
+theorem walk_newest_wins (P : Parsers V T) (buf : Bytes) (start fuel : Nat) (newest : Rev T) (older : List (Rev T))
+    (size : Nat) (hx : locateXref buf = .ok newest.off) (hin : start + newest.off < buf.length)
+    (hfit : start + newest.off ≤ usizeMax)
+    (hnew : P.xrefAt (buf.drop (start + newest.off)) = .ok (newest.subs, newest.trailer))
+    (hsize : P.sizeOf newest.trailer = .ok size) (hmax : size ≤ maxId)
+    (hread : ∀ r ∈ older, ReadsAt P buf start r) (hlink : Linked P (newest :: older))
+    (hnd : (older.map (·.off)).Nodup) (hfuel : older.length ≤ fuel)
+    (id : Nat) (hid : id < size) (wf : WF (historyOf (newest :: older)) id) :
+    ∃ t, loadTable P fuel buf start = .ok (t, newest.trailer) ∧ t.length = size + 1 ∧
+      t[id]? = some ((latest (historyOf (newest :: older)) id).getD .invalid) := by
+  obtain ⟨t, hm, hg⟩ := merge_newest_wins size (historyOf (newest :: older)) id hid wf
+  have hrev : (historyOf (newest :: older)).reverse = (newest :: older).map (·.subs) := by
+    simp [historyOf]
+  rw [hrev] at hm
+  refine ⟨t, ?_, by rw [mergeAll_length _ hm, newTable_length], hg⟩
+  rw [walk_visits_chain P buf start fuel newest older size hx hin hfit hnew hsize hmax hread hlink hnd hfuel, hm]
+  rfl
+
+end Walk
+
+/-! ## From the bytes of a file to the merged table
+
+The walk with the section reader made concrete (`XrefTable.readXrefTableAndTrailer`, Model/XrefFile):
+classic sections are read from their bytes by the table reader; for a section stored as a cross-reference
+stream the contract `ReadsAt` of the (abstract) stream reader `stm` is assumed — its row reader is
+covered by `stream_sections_read_back`. -/
+
+section File
+open PdfLex XrefTable XrefTableSpec Offsets
+
+variable {R V : Type}
+
+/-- **C02 for a file, each section independently in table or stream format.** `buf` is the file, the header
+    sits at `start`, `startxref` names the newest section; every section of the chain `newest :: older`
+    is either a classic section written in any conforming layout at its offset (`ClassicAt`: the bytes
+    there are a `SectionText` of its subsections followed by a conformant spelling of its trailer
+    dictionary) or is returned by the stream reader (`ReadsAt`); the trailer dictionaries link the chain
+    through `/Prev`, the newest one carries `/Size`.  Then `read_xref_table_and_trailer` returns the newest
+    trailer dictionary and a table of `/Size + 1` slots that holds, for every well-formed object number
+    below `/Size`, exactly its newest mention. -/
+theorem file_walk_newest_wins (env : Env R) (hd : env.decrypt = none) (stm : Buf → Nat → Out (List Sub × Dict R))
+    (base : Parsers V (Dict R)) (buf : List UInt8) (start fuel : Nat) (hsz : buf.length ≤ 2147483647)
+    (newest : Rev (Dict R)) (older : List (Rev (Dict R))) (size : Nat)
+    (hx : locateXref buf = .ok newest.off) (hin : start + newest.off < buf.length)
+    (hsec : ∀ r ∈ newest :: older, ClassicAt env buf start r ∨ ReadsAt (fileParsers env stm base) buf start r)
+    (hsize : dictGet newest.trailer keySize = some (.int (size : Int))) (hmax : size ≤ maxId)
+    (hlink : PrevLinked (newest :: older)) (hnd : (older.map (·.off)).Nodup) (hfuel : older.length ≤ fuel)
+    (id : Nat) (hid : id < size) (wf : WF (historyOf (newest :: older)) id) :
+    ∃ t, readXrefTableAndTrailer env stm base fuel buf start = .ok (t, newest.trailer) ∧ t.length = size + 1 ∧
+      t[id]? = some ((latest (historyOf (newest :: older)) id).getD .invalid) := by
+  have hreads : ∀ r ∈ newest :: older, ReadsAt (fileParsers env stm base) buf start r := by
+    intro r hr
+    rcases hsec r hr with h | h
+    · exact readsAt_classic env hd stm base buf start r hsz h
+    · exact h
+  have hn := hreads newest (by simp)
+  apply walk_newest_wins (fileParsers env stm base) buf start fuel newest older size hx hin hn.1 hn.2.2
+    _ hmax (fun r hr => hreads r (by simp [hr])) (linked_of_prevLinked env stm base _ hlink) hnd hfuel id hid wf
+  show trailerSize newest.trailer = _
+  simp [trailerSize, hsize, asUnsigned]
+
+/-- the all-classic special case: every section of the file is a classic table in some conforming layout -/
+theorem table_file_newest_wins (env : Env R) (hd : env.decrypt = none) (stm : Buf → Nat → Out (List Sub × Dict R))
+    (base : Parsers V (Dict R)) (buf : List UInt8) (start fuel : Nat) (hsz : buf.length ≤ 2147483647)
+    (newest : Rev (Dict R)) (older : List (Rev (Dict R))) (size : Nat)
+    (hx : locateXref buf = .ok newest.off) (hin : start + newest.off < buf.length)
+    (hsec : ∀ r ∈ newest :: older, ClassicAt env buf start r)
+    (hsize : dictGet newest.trailer keySize = some (.int (size : Int))) (hmax : size ≤ maxId)
+    (hlink : PrevLinked (newest :: older)) (hnd : (older.map (·.off)).Nodup) (hfuel : older.length ≤ fuel)
+    (id : Nat) (hid : id < size) (wf : WF (historyOf (newest :: older)) id) :
+    ∃ t, readXrefTableAndTrailer env stm base fuel buf start = .ok (t, newest.trailer) ∧ t.length = size + 1 ∧
+      t[id]? = some ((latest (historyOf (newest :: older)) id).getD .invalid) :=
+  file_walk_newest_wins env hd stm base buf start fuel hsz newest older size hx hin
+    (fun r hr => Or.inl (hsec r hr)) hsize hmax hlink hnd hfuel id hid wf
+
+end File
+
+
+/-! ### Non-vacuity (classic tables)
+
+`00%A<LF> 02 0000000000 65535 f<CR><LF>0000000017 00000 n <CR>5 1<CR><LF>0000000100 00001 n <LF> 09<CR>0 `:
+three subsections (one of them empty), leading zeros, a comment and a line end between the header
+numbers, all three entry line ends. It is what the executable writer emits for the tape below, the relation
+permits it, and the model reads it back. -/
+
+def sampleTable : List Sub := [⟨0, [.free 0 65535, .raw 17 0]⟩, ⟨5, [.raw 100 1]⟩, ⟨9, []⟩]
+
+def sampleTape : List Nat := [1, 2, 7, 1, 65, 0, 0, 1, 1, 0, 2, 0, 0, 0, 1, 0, 0, 2, 2, 1, 1, 1, 0, 1, 1, 2]
+
+def sampleTableText : List UInt8 :=
+  [48, 48, 37, 65, 10, 32, 48, 50, 32, 48, 48, 48, 48, 48, 48, 48, 48, 48, 48, 32, 54, 53, 53, 51, 53, 32, 102, 13, 10,
+   48, 48, 48, 48, 48, 48, 48, 48, 49, 55, 32, 48, 48, 48, 48, 48, 32, 110, 32, 13, 53, 32, 49, 13, 10, 48, 48, 48, 48,
+   48, 48, 48, 49, 48, 48, 32, 48, 48, 48, 48, 49, 32, 110, 32, 10, 32, 48, 57, 13, 48, 32]
+
+theorem sampleTable_written : (XrefTableSpec.writeTable sampleTable sampleTape).1 = sampleTableText := by
+  decide +kernel
+
+theorem sampleTable_ok : ∀ s ∈ sampleTable, XrefTableSpec.SubOK s := by
+  intro s hs
+  simp only [sampleTable, List.mem_cons, List.not_mem_nil, or_false] at hs
+  rcases hs with rfl | rfl | rfl <;>
+    simp [XrefTableSpec.SubOK, XrefTableSpec.Writable, XrefTableSpec.u32Max, XrefTableSpec.u64Max]
+
+/-- the hypothesis `TableText` of the reader theorems holds for it -/
+theorem sampleTable_conformant : XrefTableSpec.TableText sampleTable sampleTableText := by
+  rw [← sampleTable_written]
+  exact table_writer_conformant sampleTable sampleTable_ok sampleTape
+
+/-- `table_section_reads_back` applies: behind `xref<LF>`, followed by `trailer<<` -/
+example : XrefTable.parseTable ([10] ++ sampleTableText ++ XrefTable.kwTrailer ++ [60, 60]).toArray
+    (XrefTable.defaultFuel ([10] ++ sampleTableText ++ XrefTable.kwTrailer ++ [60, 60]).toArray) 0
+      = .ok (sampleTable, 0 + ([10] ++ sampleTableText ++ XrefTable.kwTrailer).length) :=
+  table_section_reads_back sampleTable [10] sampleTableText [60, 60]
+    (PdfSyntax.Gap.ws 10 [] (by decide) PdfSyntax.Gap.nil) sampleTable_conformant (by simp [PdfSyntax.Bnd]; decide) 0
+    (PdfLex.suffix_zero _)
+
+/-- and the model computes exactly that (kernel evaluation of the reader on the bytes) -/
+example : XrefTable.parseTable ([10] ++ sampleTableText ++ XrefTable.kwTrailer ++ [60, 60]).toArray 100 0
+    = .ok (sampleTable, 88) := by decide +kernel
+
+/-- every entry of the sample is in the fixed 20-byte format -/
+example : XrefTableSpec.StrictEntry (.raw 100 1) (XrefTableSpec.entryBytes (.raw 100 1) 1) :=
+  XrefTableSpec.entryBytes_strict (.raw 100 1) 1 (by decide)
+
+/-- a damaged table is refused, not misread: entry kind letter `x`, a count larger than the entries present,
+    a missing `trailer` -/
+example : XrefTable.parseTable "0 1 0000000000 65535 x \ntrailer".toUTF8.toList.toArray 100 0 = .err := by decide +kernel
+example : XrefTable.parseTable "0 2 0000000000 65535 f \ntrailer".toUTF8.toList.toArray 100 0 = .err := by decide +kernel
+example : XrefTable.parseTable "0 1 0000000000 65535 f \n".toUTF8.toList.toArray 100 0 = .err := by decide +kernel
+
+/-! ### Non-vacuity (file level)
+
+`exFile`: `%PDF-1.4`, a first section at offset 9 (objects 0–2) and an update at offset 98 that moves
+object 1 and frees object 2, both written by the executable writer (table) and the C03 printer (trailer
+dictionary), `/Prev 9` in the newer trailer, `startxref 98`.  Every hypothesis of `table_file_newest_wins`
+holds for it, and the model computes the merged table from the bytes. -/
+
+section FileExample
+open XrefTableSpec XrefTable PdfLex Offsets
+
+def exEnv : Env Unit :=
+  { parseReal := fun _ => some (), resolveLen := fun _ _ => .err, allowMissingEndobj := false, decrypt := none, fileOffset := 0 }
+
+def exBase : Parsers Unit (Dict Unit) where
+  xrefAt := fun _ => .err
+  sizeOf := fun _ => .err
+  prevOf := fun _ => none
+  objAt := fun _ _ => .err
+  streamEnd := fun _ => .err
+  asLen := fun _ => .err
+  stmHead := fun _ => .err
+  decode := fun _ _ => .err
+  parseMember := fun _ _ => .err
+  scanItems := fun _ => []
+
+def exRev0 : Rev (Dict Unit) := ⟨9, [⟨0, [.free 0 65535, .raw 9 0, .raw 20 0]⟩], [(keySize, .int 3)]⟩
+def exRev1 : Rev (Dict Unit) := ⟨98, [⟨1, [.raw 50 0]⟩, ⟨2, [.free 0 1]⟩], [(keySize, .int 3), (keyPrev, .int 9)]⟩
+
+def exTable (r : Rev (Dict Unit)) : List UInt8 := (writeTable r.subs []).1
+def exDictText (r : Rev (Dict Unit)) : List UInt8 := (PdfSpec.render (fun _ => [48, 46]) (Prim.dict r.trailer) []).1
+def exSection (r : Rev (Dict Unit)) : List UInt8 :=
+  [] ++ XrefTableSpec.kwXref ++ [10] ++ exTable r ++ XrefTableSpec.kwTrailer ++ [10] ++ exDictText r
+
+def exTail : List UInt8 := "\nstartxref\n98\n%%EOF".toUTF8.toList
+def exFile : List UInt8 := "%PDF-1.4\n".toUTF8.toList ++ exSection exRev0 ++ [10] ++ exSection exRev1 ++ exTail
+
+theorem exSubOK (r : Rev (Dict Unit)) (h : r = exRev0 ∨ r = exRev1) : ∀ s ∈ r.subs, SubOK s := by
+  intro s hs
+  rcases h with rfl | rfl <;>
+    (simp only [exRev0, exRev1, List.mem_cons, List.not_mem_nil, or_false] at hs) <;>
+    (try rcases hs with rfl | rfl) <;> (try subst hs) <;>
+    simp [SubOK, Writable, XrefTableSpec.u32Max, XrefTableSpec.u64Max]
+
+theorem exSectionText (r : Rev (Dict Unit)) (h : r = exRev0 ∨ r = exRev1) :
+    SectionText r.subs (exDictText r) (exSection r) :=
+  ⟨[], [10], exTable r, [10], rfl, PdfSyntax.Gap.nil,
+    ⟨PdfSyntax.Gap.ws 10 [] (by decide) PdfSyntax.Gap.nil, by simp⟩,
+    writeTable_conformant r.subs (exSubOK r h) [], PdfSyntax.Gap.ws 10 [] (by decide) PdfSyntax.Gap.nil⟩
+
+theorem exSpells (r : Rev (Dict Unit)) (h : r = exRev0 ∨ r = exRev1) :
+    PdfSyntax.Spells exEnv.parseReal (Prim.dict r.trailer) (exDictText r) := by
+  apply PdfSpec.render_spells
+  rcases h with rfl | rfl <;> simp [exRev0, exRev1, PdfSpec.Renderable, PdfSpec.RenderableE]
+
+theorem exClassic0 : ClassicAt exEnv exFile 0 exRev0 := by
+  refine ⟨exDictText exRev0, exSection exRev0, [10] ++ exSection exRev1 ++ exTail, by decide +kernel, by decide +kernel,
+    exSectionText _ (Or.inl rfl), exSpells _ (Or.inl rfl), ?_, by decide, ?_⟩
+  · simp [exRev0, PdfSyntax.WF, PdfSyntax.WFE, PdfSyntax.keysOf, keySize]; decide
+  · exact Or.inr ⟨(89, 93), by decide +kernel, by decide +kernel, by decide +kernel,
+      fun hi => absurd hi (by decide +kernel)⟩
+
+theorem exClassic1 : ClassicAt exEnv exFile 0 exRev1 := by
+  refine ⟨exDictText exRev1, exSection exRev1, exTail, by decide +kernel, by decide +kernel,
+    exSectionText _ (Or.inr rfl), exSpells _ (Or.inr rfl), ?_, by decide, ?_⟩
+  · simp [exRev1, PdfSyntax.WF, PdfSyntax.WFE, PdfSyntax.keysOf, keySize, keyPrev]; decide
+  · exact Or.inr ⟨(80, 89), by decide +kernel, by decide +kernel, by decide +kernel,
+      fun hi => absurd hi (by decide +kernel)⟩
+
+theorem exWF : ∀ id, id < 3 → WF (historyOf [exRev1, exRev0]) id := by
+  intro id hid
+  have : id = 0 ∨ id = 1 ∨ id = 2 := by omega
+  rcases this with rfl | rfl | rfl <;>
+    (refine ⟨by unfold pairsOK; decide, ?_⟩
+     simp [historyOf, exRev0, exRev1, mentionsOf, mentions, allPairs, secPairs, subPairs, pairsFrom, keeps, gen])
+
+/-- all hypotheses of `table_file_newest_wins` hold for the two-revision file `exFile`:
+    `%PDF-1.4`, a first section (objects 0–2), an update that moves object 1 and frees object 2 -/
+theorem exFile_newest_wins (id : Nat) (hid : id < 3) :
+    ∃ t, readXrefTableAndTrailer exEnv (fun _ _ => .err) exBase 5 exFile 0 = .ok (t, exRev1.trailer) ∧
+      t.length = 3 + 1 ∧ t[id]? = some ((latest (historyOf [exRev1, exRev0]) id).getD .invalid) :=
+  table_file_newest_wins exEnv rfl (fun _ _ => .err) exBase exFile 0 5 (by decide +kernel) exRev1 [exRev0] 3
+    (by decide +kernel) (by decide +kernel)
+    (by intro r hr; simp only [List.mem_cons, List.not_mem_nil, or_false] at hr
+        rcases hr with rfl | rfl
+        · exact exClassic1
+        · exact exClassic0)
+    rfl (by decide) ⟨rfl, rfl⟩ (by simp) (by simp) id hid (exWF id hid)
+
+/-- and the model computes the table from the bytes: object 1 moved, object 2 freed, trailer of the update -/
+example : (match readXrefTableAndTrailer exEnv (fun _ _ => .err) exBase 5 exFile 0 with
+    | .ok (t, _) => t == [.free 0 65535, .raw 50 0, .free 0 1, .free 0 65535]
+    | _ => false) = true := by decide +kernel
+
+
+end FileExample
 
 /-! ## The rule before the repair (D11) did not satisfy the property
 
